@@ -236,6 +236,7 @@ type c03Run struct {
 	fn        *ssa.Function
 	outs      []c03Outcome
 	truncated bool
+	dropped   bool // some branch was not explored: "no path does X" cannot be concluded
 	desc      string
 }
 
@@ -254,7 +255,7 @@ func (e *c03Env) runMem(sc *c03Scenario, fn *ssa.Function, args []c03V, mem map[
 			fmt.Fprintf(os.Stderr, "   %s imprecise=%v events=%v\n", e.describe(o), o.Imprecise, c03EventNames([]c03Outcome{o}))
 		}
 	}
-	return c03Run{fn: fn, outs: outs, truncated: x.Truncated || len(outs) == 0, desc: desc}
+	return c03Run{fn: fn, outs: outs, truncated: x.Truncated || len(outs) == 0, dropped: x.Dropped, desc: desc}
 }
 
 func c03ErrOf(o c03Outcome) c03V {
@@ -419,7 +420,10 @@ func (e *c03Env) accepted(run c03Run) c03Verdict {
 			}
 		}
 	}
-	if !ok && v.bad == "" && !run.truncated {
+	if !ok && v.bad == "" && run.dropped {
+		v.truncated = true // the accepting path may lie behind a branch that was not explored
+	}
+	if !ok && v.bad == "" && !run.truncated && !run.dropped {
 		var seen []string
 		for _, o := range run.outs {
 			seen = append(seen, e.describe(o))
@@ -529,6 +533,11 @@ func (e *c03Env) checkRoute(construct, pos string, run c03Run, required []string
 		if c03Success(o) {
 			succ = append(succ, o)
 		}
+	}
+	if len(succ) == 0 && (run.truncated || run.dropped) {
+		e.r.Undecide("%s %s: no accepting path found, but not every branch was explored", c03RRoute, construct)
+		e.r.Trivial(c03RRoute, construct, pos, "undecided")
+		return
 	}
 	if len(succ) == 0 {
 		// reported by the dispatch / accept rule; nothing to route
@@ -798,7 +807,7 @@ func (e *c03Env) checkSymmetric(names []string, enc, dec, gEnc, gDec *ssa.Functi
 				switch {
 				case hasOut:
 					e.r.OK(c03RDispatch, construct, e.p.Pos(fn.Pos()), "reaches an output-carrying return")
-				case run.truncated:
+				case run.truncated || run.dropped:
 					e.r.Undecide("%s %s: interpreter budget", c03RDispatch, construct)
 					e.r.Trivial(c03RDispatch, construct, e.p.Pos(fn.Pos()), "undecided")
 				default:
@@ -914,7 +923,7 @@ func (e *c03Env) dispatchOnly(fn *ssa.Function, name string, run c03Run) {
 	switch {
 	case hasOut:
 		e.r.OK(c03RDispatch, construct, e.p.Pos(fn.Pos()), "reaches an output-carrying return")
-	case run.truncated:
+	case run.truncated || run.dropped:
 		e.r.Undecide("%s %s: interpreter budget", c03RDispatch, construct)
 		e.r.Trivial(c03RDispatch, construct, e.p.Pos(fn.Pos()), "undecided")
 	default:
